@@ -21,7 +21,8 @@ Proof.
   - inv H. unfold new_chan in H1. destruct (q_ch (quo s) <=? count_live (chans s)); [inv H1; auto|].
     destruct (get subj (metrics s)) as [[nc ns]|]; [destruct (q_chs (quo s) <=? nc)|rewrite first_checked_true in H1; destruct (q_chs (quo s) <=? 0)]; inv H1; reflexivity.
   - inv H. unfold upd_store. cbn. apply ensure_notif.
-  - destruct (has (KUpd p) (calls s) && can_enq s); inv H. reflexivity.
+  - destruct (upd_enq p s) as [s1|] eqn:E; inv H. apply upd_enq_spec in E; subst. reflexivity.
+  - destruct (has (KUpd p) (calls s) && negb (can_enq s) && upd_blocking); inv H. reflexivity.
   - inv H. destruct (sub_reg_cases _ _ _ _ _ H1) as [->|(_ & s0 & H0 & ->)]; [reflexivity|].
     destruct (sub_reg0_spec _ _ _ _ H0) as (ch & _ & _ & _ & _ & _ & _ & _ & _ & Nf). rewrite mark_notif. exact Nf.
   - destruct (has (KSub c p false) (calls s)); inv H. reflexivity.
@@ -182,6 +183,6 @@ Proof.
   intros Hcap P q s evs p R Hin.
   destruct (notifier_drains_alone_proved _ _ _ _ R) as (l & s1 & e & L1 & L2 & L3 & L4 & L5 & L6).
   exists l, s1, e. eexists. repeat split; eauto.
-  cbn [step]. rewrite L5. apply has_In in Hin. rewrite Hin. unfold can_enq. rewrite L4.
-  replace (lenN (@nil N) <? cap) with true by (symmetry; apply N.ltb_lt; exact Hcap). reflexivity.
+  cbn [step]. rewrite upd_enq_enabled; [reflexivity | rewrite L5; apply has_In; exact Hin |].
+  unfold can_enq. rewrite L4. apply N.ltb_lt. exact Hcap.
 Qed.
